@@ -34,6 +34,11 @@ PROP = [  # (keyword in commit subject, property, signature of the finding it re
  ("number_format_is_linked created", "C03", "*.number_format_is_linked|required-attr|c:numFmt/@formatCode"), ("non-str to TextFrame.text", "C03", "*.text|missing-child|p:txBody, a:txBody, c:rich"),
  ("non-str hyperlink address", "C03", "hyperlink.address|package-broken"),
  ("sharing an extension with different default-table", "C01", "default-clash"), ("directory-form package treated a directory", "C16", "dir-form-target-names-directory"),
+ ("inf to a shape adjustment", "C09", "wrong-exception:Adjustment.effective_value:OverflowError"), ("vary_by_categories raised", "C09", "wrong-exception:_BasePlot.vary_by_categories:AttributeError"),
+ ("has_data_labels raised", "C09", "wrong-exception:_BasePlot.has_data_labels:AttributeError"), ("refused click_action.target_slide", "C09", "wrong-exception / reject-breaks-getter:ActionSetting.target_slide"),
+ ("brightness accepted NaN", "C09", "ood-accepted:ColorFormat.brightness"), ("a:lumMod / a:lumOff", "C09", "reject-breaks-getter:_Color.brightness"),
+ ("MSO_AUTO_SIZE.MIXED", "C09", "ood-accepted:TextFrame.auto_size"), ("refused Marker.size", "C09", "reject-breaks-getter:Marker.size"),
+ ("refused slide_width / slide_height", "C09", "reject-breaks-getter:Presentation.slide_width / slide_height"), ("refused left / top / width / height", "C09", "reject-breaks-sibling:BaseShape / _InheritsDimensions left top width height"),
  ("EMF images", "C15", "emf-stored-as-wmf"), ("TIFF without resolution", "C15", "tiff-without-resolution-sized-at-1dpi"),
 ]
 k = json.load(open(os.path.join(V, "known_findings.json")))
